@@ -2,10 +2,13 @@ SPECIFICATION Spec
 CONSTANTS
   Pool <- PoolI
   Kids <- KidsI
+  TypeOf <- TypeI
+  HashOf <- HashI
   MaxEnc = 3
   Aux = TRUE
   AllowUnregistered = FALSE
   PinDecoded = FALSE
+  SeenByHashOnly = FALSE
   Emitting = FALSE
 CHECK_DEADLOCK FALSE
 INVARIANTS
